@@ -85,10 +85,16 @@ fn tracker_visit_macro<'a>(
         // side of assuming caller is there.
         state.assign("caller");
     }
-    m.args.iter().for_each(|arg| track_assign(arg, state));
-    m.defaults
-        .iter()
-        .for_each(|expr| tracker_visit_expr(expr, state));
+    // the compiled macro stores its arguments last to first and evaluates the
+    // default of an argument right before that argument is stored: a default
+    // only sees the arguments that come after it.
+    let mut defaults_iter = m.defaults.iter().rev();
+    for arg in m.args.iter().rev() {
+        if let Some(default) = defaults_iter.next() {
+            tracker_visit_expr(default, state);
+        }
+        track_assign(arg, state);
+    }
     m.body.iter().for_each(|node| track_walk(node, state));
 }
 
@@ -241,15 +247,15 @@ fn track_walk<'a>(node: &ast::Stmt<'a>, state: &mut AssignmentTracker<'a>) {
         ast::Stmt::WithBlock(stmt) => {
             state.push();
             for (target, expr) in &stmt.assignments {
-                track_assign(target, state);
                 tracker_visit_expr(expr, state);
+                track_assign(target, state);
             }
             stmt.body.iter().for_each(|x| track_walk(x, state));
             state.pop();
         }
         ast::Stmt::Set(stmt) => {
-            track_assign(&stmt.target, state);
             tracker_visit_expr(&stmt.expr, state);
+            track_assign(&stmt.target, state);
         }
         ast::Stmt::AutoEscape(stmt) => {
             state.push();
@@ -262,10 +268,10 @@ fn track_walk<'a>(node: &ast::Stmt<'a>, state: &mut AssignmentTracker<'a>) {
             state.pop();
         }
         ast::Stmt::SetBlock(stmt) => {
-            track_assign(&stmt.target, state);
             state.push();
             stmt.body.iter().for_each(|x| track_walk(x, state));
             state.pop();
+            track_assign(&stmt.target, state);
         }
         #[cfg(feature = "multi_template")]
         ast::Stmt::Block(stmt) => {
